@@ -127,7 +127,13 @@ func pickCfg(r *rand.Rand, mode int64, big bool) gcfg {
 	if m < 400 {
 		ln, ds = 20, 20
 	}
-	return gcfg{mode, m, 8000, 80000, m, m, ln, ds}
+	// the four predefined names must be told apart: distinct values most of the time
+	procs := int64(8000)
+	if r.Intn(3) != 0 {
+		ds = ln + 1 + r.Int63n(ln)
+		procs = 1 + r.Int63n(9000)
+	}
+	return gcfg{mode, m, procs, 80000, m, m, ln, ds}
 }
 
 var ops94 = []int64{0, 1, 2, 3, 4, 5, 6, 7, 8, 9, 10, 11, 12, 13, 14, 15, 16}
@@ -436,4 +442,97 @@ func genLegalInstr(r *rand.Rand, mode, m int64) []int64 {
 			return []int64{op, md, edgeField(r, m), am, edgeField(r, m), bm}
 		}
 	}
+}
+
+// genCli emits kind 34: [34; use88 s p c l F r preset; nprogs; style1; prog1; style2; prog2]
+// Small battle programs (imps, dwarfs, random code) so that outcomes vary.
+func genCli(w *bufio.Writer, r *rand.Rand, n int) {
+	for k := 0; k < n; k++ {
+		use88 := int64(r.Intn(4) / 3)
+		ln := int64(3 + r.Intn(6))
+		s := []int64{80, 200, 800, 8000, 8192, 257}[r.Intn(6)]
+		if s < 3*ln+1 {
+			s = 3*ln + 1
+		}
+		p := []int64{1, 2, 8, 8000}[r.Intn(4)]
+		c := []int64{1, 10, 100, 500, 2000}[r.Intn(5)]
+		rounds := int64(1 + r.Intn(3))
+		F := int64(0)
+		if r.Intn(5) != 0 {
+			F = 2*ln + r.Int63n(s-3*ln)
+		}
+		preset := int64(0)
+		if r.Intn(6) == 0 {
+			preset = int64(1 + r.Intn(6))
+			if preset <= 3 && r.Intn(3) != 0 {
+				preset = int64(4 + r.Intn(3)) // the big presets take long: mostly the small ones
+			}
+			// placement must fit the preset's core
+			cores := []int64{0, 8000, 8192, 8000, 800, 256, 80}
+			lens := []int64{0, 100, 300, 100, 20, 10, 5}
+			if F != 0 {
+				F = 2*lens[preset] + r.Int63n(cores[preset]-3*lens[preset])
+			}
+			if preset <= 3 {
+				use88 = map[int64]int64{1: 1, 2: 1, 3: 0}[preset]
+			} else {
+				use88 = 0
+			}
+		}
+		mode := int64(2)
+		if use88 == 1 {
+			mode = 0
+		}
+		np := int64(1 + r.Intn(3)/1)
+		if np > 2 {
+			np = 2
+		}
+		line := []int64{34, use88, s, p, c, ln, F, rounds, preset, np}
+		for q := int64(0); q < np; q++ {
+			line = append(line, r.Int63n(1<<20))
+			line = append(line, battleProg(r, mode)...)
+		}
+		wr(w, line)
+	}
+}
+
+// a short abstract program that does something: [nitems; items; org; end; name; author]
+func battleProg(r *rand.Rand, mode int64) []int64 {
+	lit := func(n int64) []int64 { return []int64{0, n} }
+	ins := func(op, md, am int64, a []int64, hasb bool, bm int64, b []int64) []int64 {
+		out := []int64{0, 0, op, md, am}
+		out = append(out, a...)
+		if hasb {
+			out = append(out, 1, bm)
+			out = append(out, b...)
+		} else {
+			out = append(out, 0)
+		}
+		return out
+	}
+	var items [][]int64
+	switch r.Intn(6) {
+	case 0: // imp
+		items = [][]int64{ins(1, -1, -1, lit(0), true, -1, lit(1))}
+	case 1: // dwarf
+		items = [][]int64{ins(2, -1, 1, lit(4), true, -1, lit(3)), ins(1, -1, -1, lit(2), true, 3, lit(2)),
+			ins(11, -1, -1, []int64{3, 1, 0, 2}, false, 0, nil), ins(0, -1, 1, lit(0), true, 1, lit(0))}
+	case 2: // dat only: dies at once
+		items = [][]int64{ins(0, -1, 1, lit(0), true, 1, lit(0))}
+	case 3: // jmp 0 : lives forever
+		items = [][]int64{ins(11, -1, -1, lit(0), false, 0, nil)}
+	case 4: // spl fan then dat
+		items = [][]int64{ins(15, -1, -1, lit(0), false, 0, nil), ins(1, -1, -1, lit(0), true, -1, lit(1))}
+	default:
+		n := 1 + r.Intn(4)
+		g := &egen{r: r, maxLit: 12}
+		for i := 0; i < n; i++ {
+			items = append(items, genInstr(r, progOpts{mode: mode, exprDepth: 1, maxInstr: 1}, g, nil))
+		}
+	}
+	out := []int64{int64(len(items))}
+	for _, it := range items {
+		out = append(out, it...)
+	}
+	return append(out, 0, 0, -1, -1)
 }
